@@ -848,6 +848,23 @@ def run_determ(ctx, i):
             or all(isinstance(x, str) and x == res[0] for x in (res[2], res[3]))
         ctx.check(same_, "deterministic", what="image_mesh.%s.image_plane_mesh_grid_from on equal fresh inputs: A, B, A, A" % kind_, first=lambda: res[0],
                   third=lambda: res[2], fourth=lambda: res[3])
+    # a Delaunay mapper on a degenerate mesh (all vertices on one line: Qhull cannot start), rebuilt from equal inputs under different
+    # states of the global random generator: the same outcome every time (the same refusal, or the same tables)
+    mkd = aa.Mask2D.all_false(shape_native=(3, 4), pixel_scales=1.0)
+    line_pts = np.stack([np.full(7, 0.25) if i % 2 else np.linspace(-1.0, 1.0, 7) * 0.5, np.linspace(-1.5, 1.5, 7)], axis=1)
+    outs = []
+    for rep in range(4):
+        np.random.seed(int(rng.integers(1 << 30)))
+        np.random.random(int(rng.integers(1, 30)))
+        try:
+            osd = aa.OverSamplerUniform(mask=mkd, sub_size=1)
+            mgd = aa.MapperGrids(mask=mkd, source_plane_data_grid=aa.Grid2DIrregular(values=np.array(_np(osd.over_sampled_grid), dtype=float) * 0.4),
+                                 source_plane_mesh_grid=aa.Mesh2DDelaunay(values=line_pts.copy()))
+            mpd = aa.Mapper(mapper_grids=mgd, over_sampler=osd, regularization=None)
+            outs.append(value_fp(_np(mpd.mapping_matrix)) + "|" + value_fp(np.asarray(mpd.pix_indexes_for_sub_slim_index)) + "|" + value_fp(np.asarray(mpd.neighbors)))
+        except Exception as e:
+            outs.append("EXC:" + type(e).__name__)
+    ctx.check(len(set(outs)) == 1, "deterministic", what="Delaunay mapper on collinear mesh vertices rebuilt under different global RNG states", outcomes=outs)
     # 1-D structures built from caller-owned arrays on a mask with masked entries (native-format values, float and integer)
     L1 = int(rng.integers(3, 9))
     m1 = rng.random(L1) < 0.4
